@@ -71,13 +71,24 @@ def _replay(scn, hist):
     return w
 
 
+class StepTimeout(BaseException):
+    pass
+
+
+def _alarm(signum, frame):
+    raise StepTimeout()
+
+
 def _expand(task):
     """task = (hist, key, dev) -> list of child records"""
+    import signal
     hist, key, dev = task
     scn = _SCN
     out = []
     nreplay = 0
     nrecheck = 0
+    signal.signal(signal.SIGALRM, _alarm)
+    signal.setitimer(signal.ITIMER_REAL, float(os.environ.get("VERIF_STEP_TIMEOUT", "120")))
     try:
         w = _replay(scn, hist)
         nreplay += 1
@@ -109,10 +120,15 @@ def _expand(task):
             out.append(dict(ev=ev, key=k, dev=ndev, viol=viol, terminal=terminal,
                             outcome=w.outcome() if terminal else None,
                             cov=w.coverage() if hasattr(w, "coverage") else None))
+    except StepTimeout:
+        # one expansion (a handful of replays) must never take this long: the implementation is looping
+        return dict(livelock=True, hist=hist, nreplay=nreplay, nrecheck=nrecheck, children=out)
     except Divergence as e:
         return dict(error="DIVERGENCE: %s" % e, hist=hist)
     except Exception:
         return dict(error="HARNESS ERROR: " + traceback.format_exc(), hist=hist)
+    finally:
+        signal.setitimer(signal.ITIMER_REAL, 0)
     return dict(children=out, nreplay=nreplay, nrecheck=nrecheck)
 
 
@@ -154,6 +170,13 @@ def explore(scn, nproc=None, log=None, stop_on_violation=False, max_violations=2
                 if "error" in r:
                     raise RuntimeError(r["error"])
                 hist = task[0]
+                if r.get("livelock"):
+                    sig = ("livelock", "expansion-timeout")
+                    if sig not in sigs:
+                        sigs.add(sig)
+                        res.violations.append(dict(oracle="livelock", sig="expansion-timeout", history=hist,
+                                                   msg="expanding this state did not finish within the step timeout: some event "
+                                                       "handler or the eager closure after it never terminates"))
                 res.replays += r["nreplay"]
                 res.rechecks += r["nrecheck"]
                 for c in r["children"]:
@@ -201,6 +224,14 @@ def explore(scn, nproc=None, log=None, stop_on_violation=False, max_violations=2
             frontier = nxt
             depth += 1
             res.max_depth = depth
+            if res.violations:
+                # a violation is on record: finish at most two more levels (to collect sibling signatures), then stop
+                first_viol_depth = getattr(res, "_first_viol_depth", None)
+                if first_viol_depth is None:
+                    res._first_viol_depth = first_viol_depth = depth
+                if depth >= first_viol_depth + 2 and frontier:
+                    res.caps_hit.append("stopped %d levels after the first violation" % (depth - first_viol_depth))
+                    frontier = []
             if log:
                 log("  [%s] depth %d: states=%d transitions=%d frontier=%d viol=%d %.1fs" % (
                     scn.name, depth, res.states, res.transitions, len(frontier),
